@@ -55,7 +55,11 @@ class Loader(object):
         seam = seams.OpenSeam(ev, root=self.disk.root)
         out = {'io': ev}
         fobj = None
-        if fileobj:
+        if fileobj == 'bytesio':
+            # a file-like object without a file descriptor (zip member, upload): the reader may refuse it
+            import io as _io
+            path = _io.BytesIO(self.disk.files[name])
+        elif fileobj:
             # documented alternative: the caller hands in an open binary file instead of a path
             fobj = open(path, 'rb')
             path = seams.RecFile(fobj, name, ev)
@@ -152,7 +156,7 @@ class C01Machine(Machine):
                     spec['byteord'] = '1,2,3'
             return {'arm': 'unsupported', 'kind': kind, 'spec': spec}
         return {'arm': 'intact', 'spec': fcsgen.gen_spec(rng, bulk_p=0.0015), 'reload': rng.chance(0.3),
-                'fileobj': rng.chance(0.15)}
+                'fileobj': rng.chance(0.15), 'bytesio': rng.chance(0.05)}
 
     def summarise(self, case):
         s = dict(case['spec'])
@@ -193,6 +197,16 @@ class C01Machine(Machine):
                 except fcs_ref.RefDontCare:
                     if not spec.get('bulk'):
                         out['probes']['ref_dontcare'] = 1
+                if case.get('bytesio'):
+                    for cls in ('FCSFile', 'FCSData'):
+                        o = ld.load('f.fcs', cls, fileobj='bytesio')
+                        out['evals'] += 1
+                        log.add('load-bytesio', cls, o['kind'], o.get('exc'))
+                        if o['kind'] == 'ok' and not (data_equal(o['data'], T['data']) and o['text'] == T['text']):
+                            out['violations'].append(violation(
+                                'C01/values', 'bytesio/%s/%s' % (cls, lc),
+                                'a stream without file descriptor was accepted but decoded differently from the file'))
+                        out['probes']['stream_without_fileno_' + ('accepted' if o['kind'] == 'ok' else 'refused')] = 1
                 for cls in ('FCSFile', 'FCSData'):
                     o = ld.load('f.fcs', cls, fileobj=bool(case.get('fileobj')))
                     if case.get('fileobj'):
